@@ -30,10 +30,16 @@ type Cfg struct {
 	AutoOptions bool
 	GlobalTS    int // 0 none, 1 ignore, 2 redirect
 	CacheSize   int // copy-on-write cache capacity (0 = default)
+	MaxParams   int // WithMaxRouteParams (0 = default)
+	MaxKeyBytes int // WithMaxRouteParamKeyBytes (0 = default)
 }
 
 func (c Cfg) String() string {
-	return fmt.Sprintf("{405:%v options:%v ts:%d cache:%d}", c.NoMethod, c.AutoOptions, c.GlobalTS, c.CacheSize)
+	s := fmt.Sprintf("{405:%v options:%v ts:%d cache:%d", c.NoMethod, c.AutoOptions, c.GlobalTS, c.CacheSize)
+	if c.MaxParams > 0 || c.MaxKeyBytes > 0 {
+		s += fmt.Sprintf(" maxparams:%d maxkeybytes:%d", c.MaxParams, c.MaxKeyBytes)
+	}
+	return s + "}"
 }
 
 // Hit is what a handler observed through its Context.
@@ -149,6 +155,12 @@ func Build(cfg Cfg, extra ...fox.GlobalOption) (*World, error) {
 		opts = append(opts, fox.WithIgnoreTrailingSlash(true))
 	case 2:
 		opts = append(opts, fox.WithRedirectTrailingSlash(true))
+	}
+	if cfg.MaxParams > 0 {
+		opts = append(opts, fox.WithMaxRouteParams(uint16(cfg.MaxParams)))
+	}
+	if cfg.MaxKeyBytes > 0 {
+		opts = append(opts, fox.WithMaxRouteParamKeyBytes(uint16(cfg.MaxKeyBytes)))
 	}
 	opts = append(opts, extra...)
 	opts = append(opts, fox.WithMiddlewareFor(fox.RedirectHandler, redirectSpy))
